@@ -258,9 +258,9 @@ int main(int argc, char** argv) {
   std::vector<Section> S;
   S.push_back({"selftest", 64, 400, false, sec_selftest, 120});
   S.push_back({"sh", 12000, 400000, true, sec_sh, 120});
-  S.push_back({"fieldcomp", 6000, 300000, true, sec_fieldcomp});
-  S.push_back({"magnetic", 1600, 60000, true, sec_magnetic, 120});
+  S.push_back({"fieldcomp", 20000, 600000, true, sec_fieldcomp});
+  S.push_back({"magnetic", 5000, 150000, true, sec_magnetic, 120});
   S.push_back({"gravity", 1600, 60000, true, sec_gravity, 120});
-  S.push_back({"normal", 800, 30000, true, sec_normal, 60});
+  S.push_back({"normal", 2000, 60000, true, sec_normal, 60});
   return vh::run_sections(argc, argv, S);
 }
